@@ -97,12 +97,28 @@ def rule_vocab(consts):
         v.append(frag(t, "R"))
     for k in ["", "DUP1 PUSH 0 MSTORE", "DUP2 ADD", "POP"]:
         v.append(frag(k, "K"))
+    v.append(frag("DUP1", "D"))
+    v.append(frag("SWAP1", "X"))
     return v
 
 
 RULE_SHAPES_BASIC = [["S", "T", "B"], ["T", "U"], ["S", "S", "T", "R"]]
 RULE_SHAPES_CTX = [["S", "T", "B", "K"], ["T", "U", "K"]]
 RULE_SHAPES_CHAIN = [["S", "T", "B", "T2", "O"], ["T", "U", "T2", "O"], ["S", "T", "B", "U", "U"], ["T", "U", "U", "U"]]
+
+# a result that is used twice: by both operands of its consumer, or by two different consumers
+RULE_SHAPES_SHARED = [["S", "T", "B", "D", "O"], ["T", "U", "D", "O"], ["S", "T", "B", "U", "D", "U", "X", "O"], ["T", "U", "U", "D", "U", "X", "O"]]
+
+
+def shared_use_blocks(n, seed):
+    """rule instances whose result (or the middle value of an operator chain) has two uses"""
+    import corpus
+    out = []
+    for sh in RULE_SHAPES_SHARED:
+        b, _ = enumerate_blocks(rule_vocab(C3), [sh], 3)
+        out += corpus.sample(b, n, seed)
+    return out
+
 
 MEM_ADDRS = [0, 1, 31, 32, 33, 63, 64]
 
@@ -196,6 +212,8 @@ def deep_blocks(n3, seed):
 
 def enumerate_blocks(vocab, shapes, maxin, simulate=None, seed=0, timeout=1800, cap=None):
     """Let TLC enumerate (or simulate: (num, depth)) the fragment sequences; returns texts in TLC's order."""
+    if common.replay_file():
+        return [], None
     w = common.workdir()
     gf = os.path.join(w, "gen_%s.json" % common.stable_hash([[(f["text"], f["cls"]) for f in vocab], shapes, maxin, simulate, seed]))
     common.write_json(gf, {"vocab": [{"pop": f["pop"], "push": f["push"], "cls": f["cls"]} for f in vocab],
@@ -233,6 +251,8 @@ def rule_patterns():
 def rule_pattern_blocks(prefixes=("", "SWAP1", "SWAP2", "DUP2"), suffixes=("", "SWAP1")):
     """every catalogued rule pattern behind a stack permutation (the operands reach the rule in every order) and
     followed by a consumer of the stack below"""
+    if common.replay_file():
+        return []
     out = []
     for _, _, p in rule_patterns():
         for a in prefixes:
